@@ -69,6 +69,10 @@ typedef struct thrift_decoder {
     int16_t last_field_id[THRIFT_MAX_NESTING];
     int nesting_level;
 
+    /* Depth of nested containers being skipped (lists, sets and maps of unknown
+     * fields recurse in thrift_skip; structs are bounded by nesting_level) */
+    int skip_depth;
+
     /* Boolean field tracking */
     bool bool_pending;
     bool bool_value;
